@@ -23,6 +23,8 @@ DECIDED = ('(a) in RadiDict.get a wildcard value is appended to the parameters o
            'wildcards already consumed, in step with the sliced pattern.')
 DECIDED_MORE = ('Also: a literal child chosen by a search (idx.find) excludes the wildcard marker; the filter-handler cache is keyed by an injective composition of (filter, configuration).')
 DECIDED = DECIDED + ' ' + DECIDED_MORE
+DECIDED_R6 = ('Round 6: saved alternatives retried last-in first-out and pushed whenever the node also has a wildcard child; the anonymous-wildcard prefix cannot begin an identifier; the (name, value) filter of make_params_dict tests the name only; the plain-wildcard scan starts at the cursor.')
+DECIDED = DECIDED + ' ' + DECIDED_R6
 NOT_DECIDED = ('equivalence of the radix-tree search with a rule-by-rule matcher over all rule sets x paths (algorithmic '
                'equivalence over unbounded inputs); regex semantics of user filters; the rule-text parser.')
 ASSUMPTIONS = ['re.Pattern.match anchors at the start of the string it is given']
